@@ -34,6 +34,7 @@ RNG_SEAM = dict(extra_src=[os.path.join(S, 'simrng.c')], ldflags=['-Wl,--wrap=ge
 WORLDS = {
     'stream': {},
     'channel': dict(RNG_SEAM),
+    'prng': dict(RNG_SEAM),
 }
 
 
@@ -127,7 +128,26 @@ def check_C14(tier, seed):
     return o.finish()
 
 
+def check_C15(tier, seed):
+    o = D.Outcome('C15', tier, seed)
+    o.components = dict(real=COMPONENTS_LIB['real'] + ['ascon_trng_generate() and its EINTR/EAGAIN retry loop (src/random/ascon-trng-dev-random.c)'],
+                        stub=['getrandom() behind -Wl,--wrap (entropy tape + EINTR/EAGAIN/EIO script)',
+                              'non-volatile page behind the ascon_storage_t callbacks (errors, short and torn writes, power loss by longjmp)'])
+    o.assumptions = ['inverse permutation p^-1 in the harness, self-tested against ascon_permute at start-up',
+                     'status convention for save/load: non-zero = done, 0 = storage failed, -1 = invalid parameters (random.h after the F12 documentation fix)',
+                     'reseed oracle counts caller-visible bytes only and never flags extra or earlier draws',
+                     'a getrandom() request of <= 256 bytes is never split (Linux guarantee the code relies on)']
+    n = 24000 if tier == 'quick' else 600000
+    cfgs = [('asm', (4, 2, 4))] if tier == 'quick' else [('asm', (4, 2, 4)), ('c64', (4, 2, 4)), ('c32', (4, 2, 4)), ('dxor', (4, 2, 4))]
+    for i, (be, sh) in enumerate(cfgs):
+        exe = world_exe('prng', be, sh, 'rel')
+        o.add(D.run_batch(exe, n if i == 0 else n // 6, tier, seed, label='prng@%s' % be, crash_prop='C12'))
+    o.extra['distinct_states_measure'] = 'visited (operation, size class, drew-from-source, past-reseed-limit, injected storage fault, expected status) tuples'
+    return o.finish()
+
+
 CHECKS = {
+    'C15': check_C15,
     'C02': check_C02,
     'C07': check_C07,
     'C14': check_C14,
@@ -136,4 +156,5 @@ CHECKS = {
 SETUP_BUILDS = [
     lambda: world_exe('stream'),
     lambda: world_exe('channel'),
+    lambda: world_exe('prng'),
 ]
